@@ -86,7 +86,7 @@ CLAIMED = {
          'Decides registry completeness, wiring and abort propagation; does not decide the verdicts themselves.',
          'DESIGN.md §4 C11'),
 }
-HOLD = {'C08'}   # waits for the fix it depends on to be committed in /repo
+HOLD = set()   # waits for the fix it depends on to be committed in /repo
 NOT_YET = 'check under construction in this session; no structural rule registered yet'
 NA = {}
 
